@@ -300,7 +300,7 @@ func init() { register("C07", "model_checking", runC07) }
 func runC07(ctx *core.Ctx) {
 	ctx.Rule("unary ops over all of alphabet S; Add/Subtract/Multiply/Equal over all ordered pairs of S'; MultiplyAdd over all triples of a sub-alphabet; Equal on x vs x+2^k / Montgomery-bit neighbours; register machine (3 Scalar registers, every receiver/argument choice incl. aliasing) explored breadth-first with exact-state de-duplication. distinct_nontrivial = distinct result encodings")
 	ctx.Assume("math/big is correct", "alphabet S (DESIGN.md section 2) stands for the l-element domain; values outside it are not decided")
-	S := alpha.Scalars(ctx.Quick())
+	S := alpha.Scalars(smoke(ctx))
 	enc := make([]Hex, len(S))
 	for i, v := range S {
 		enc[i] = le32(v)
@@ -315,10 +315,10 @@ func runC07(ctx *core.Ctx) {
 
 	// binary: thorough uses the whole alphabet; quick a stride sub-alphabet
 	B := enc
-	if ctx.Quick() && len(B) > 220 {
+	if smoke(ctx) && len(B) > 220 {
 		B = B[:220]
 	}
-	if !ctx.Quick() && len(B) > 800 {
+	if !smoke(ctx) && len(B) > 800 {
 		B = B[:800]
 	}
 	binops := []string{"Add", "Subtract", "Multiply", "Equal"}
